@@ -801,3 +801,61 @@ func checkC01LexTerminates(c *Ctx) {
 		}
 	})
 }
+
+// Indices and widths at the edges: every index from below -len to beyond the byte length on strings with
+// multi-byte characters and on arrays, the extremes of the machine word and non-finite numbers as indices;
+// printf directives x widths x arguments whose byte and character counts differ.
+func checkC01Edges(c *Ctx) {
+	pool := c.Pool()
+	var jobs []Job
+	add := func(st string) {
+		jobs = append(jobs, Job{Kind: "run", Prog: []byte("{\n  " + st + "\n}\n"), Files: []FileIn{{Name: "in.json", Data: []byte(`[{"s":"日本é","a":[1,2,3],"big":-9223372036854775808,"e":"\ud800x"}]`)}}, Budget: 100000, Tag: st})
+	}
+	subjects := []string{`""`, `"a"`, `"é"`, `"日本"`, `"a日b"`, `"Łódź"`, `"�"`, `$.s`, `$.e`, `[1, 2, 3]`, `$.a`, `[]`, `{a: 1}`}
+	var idx []string
+	for i := -12; i <= 14; i++ {
+		if i < 0 {
+			idx = append(idx, fmt.Sprintf("(0 - %d)", -i))
+		} else {
+			idx = append(idx, fmt.Sprint(i))
+		}
+	}
+	idx = append(idx, "9223372036854775807", "9223372036854775808", "(0 - 9223372036854775807)", "(0 - 9223372036854775808)", "$.big", "99999999999999999999", "(0 - 99999999999999999999)",
+		"4294967296", "(0 - 4294967296)", "2147483648", "num(\"nan\")", "num(\"inf\")", "(0 - num(\"inf\"))", "num(\"1e300\")", "0.5", "(0 - 0.5)", "2.999999", "1e-320")
+	for _, sj := range subjects {
+		for _, i := range idx {
+			add("x = " + sj + "\n  print x[" + i + "]")
+			if !c.Thorough() && len(jobs)%3 != int(c.Seed)%3 {
+				continue
+			}
+			add("x = " + sj + "\n  x[" + i + "] = 1\n  print x")
+			add("x = " + sj + "\n  x[" + i + "]++\n  print x")
+			add("x = " + sj + "\n  print x[x.length() - 1], x[" + i + "].length()")
+			add("x = " + sj + "\n  r = match (x) { [p, q, r] => r, _ => x[" + i + "] }\n  print r")
+		}
+	}
+	args := []string{`"日本"`, `"Łódź"`, `"é"`, `"a日"`, `""`, `"abc"`, `$.s`, `1.5`, `(0 - 0)`, `4611686018427387904`, `[1]`, `null`, `/re/`}
+	for _, flag := range []string{"", "-", "0", "-0", "+", " "} {
+		for _, w := range []string{"", "1", "2", "3", "4", "5", "6", "7", "9", "12"} {
+			for _, conv := range []string{"s", "f", "v", "%", "d", "x"} {
+				for ai, a := range args {
+					if !c.Thorough() && (len(jobs)+ai)%2 != int(c.Seed)%2 {
+						continue
+					}
+					add("printf(\"[%" + flag + w + conv + "]\\n\", " + a + ")")
+				}
+			}
+		}
+	}
+	pool.Map(jobs, func(i int, r Result) {
+		switch r.Class {
+		case "ok", "runtime", "syntax":
+			c.Case("edge:"+jobs[i].Tag, r.Class != "syntax")
+		case "budget", "timeout":
+			c.Count("inconclusive", 1)
+		default:
+			c.Violation("edge-"+r.Class, map[string]any{"statement": jobs[i].Tag, "program": string(jobs[i].Prog), "got_class": r.Class, "got_err": r.ErrMsg, "detail": firstN(r.Detail, 1500),
+				"why": "indexing / printf at the edges of the index and width ranges must succeed or fail with a runtime error"})
+		}
+	})
+}
